@@ -140,7 +140,21 @@ def run(pid, tier, replay=None):
     lines = []
     if new_fail:
         violations = len(new_fail)
-        f = new_fail[0]
+
+        def size(x):
+            if "history" in x:
+                return (0, len(x["history"]))
+            if isinstance(x.get("net"), dict):
+                return (1, len(x["net"].get("ops", [])) + sum(v.get("N", 1) for v in x["net"].get("links", {}).values()))
+            return (0, 0)
+        # the replay is the smallest failing case found (shortest history / smallest network), minimised further
+        # where the slice knows how (operation sequences)
+        f = min(new_fail, key=size)
+        try:
+            if hasattr(mod, "shrink"):
+                f = mod.shrink(f)
+        except Exception:
+            pass
         path = write_replay(pid, {"property": pid, "kind": "input", "seed": seed, "tier": tier,
                                   "failure": f, "others": len(new_fail) - 1,
                                   "broken_obligations": problems})
